@@ -33,11 +33,11 @@ type DrvRes struct {
 }
 
 type preUser struct {
-	Name  string `json:"name"`
-	PW    string `json:"pw"`
-	Admin bool   `json:"admin"`
-	PID   uint   `json:"pid"`
-	Aux   []byte `json:"-"`
+	Name   string `json:"name"`
+	PW     string `json:"pw"`
+	Admin  bool   `json:"admin"`
+	PID    uint   `json:"pid"`
+	Aux    []byte `json:"-"`
 	AuxCls string `json:"aux_class"`
 }
 
